@@ -15,6 +15,7 @@ CONSTANTS
   MaxAdv = 1
   MaxFork = 1
   UseScan = TRUE
+  UseSelf = FALSE
   UseDiverge = FALSE
   UseAdv = FALSE
 SPECIFICATION Spec
